@@ -222,6 +222,15 @@ UNITS = [
       props={'memsafe': ['C13'], 'ub': ['C13']},
       assumes=['plain symbolic execution of the real Parameters::group(const Group&); push_back and Group::parameter(p) are recording '
                'stubs (unit Group_parameter); group names are unique (VALID_C3D)']),
+    U('B_Parameter_read', 'contracts/bounded_parameter_read.c', 'h_B_Parameter_read', [], ['C02', 'C16', 'C13', 'C01'], mode='bmc',
+      stubs={'c3d__readUint': 'stubv_readUint', 'c3d__readInt': 'stubv_readInt', 'c3d__readString': 'stubv_readString',
+             'vf_string_assign': 'stubv_string_assign', 'c3d__readParam__uint_vsz_vint_sz': 'stubp_readParam_int',
+             'c3d__readParam__vsz_vfloat_sz': 'stubp_readParam_float', 'c3d__readParam__vsz_vstr': 'stubp_readParam_string'},
+      unwind=6, timeout=900, level='B', object_bits=12,
+      bound='image of 24 arbitrary bytes, |name length| <= 2, at most 2 dimensions, strings of at most 4 characters (larger requests cut)',
+      props={'memsafe': ['C13', 'C16'], 'ub': ['C13']},
+      assumes=['plain symbolic execution of the real Parameter::read; read helpers = value stubs (their proved contracts); the matrix '
+               'readers c3d::readParam are recording stubs that state their precondition (non-empty dimension list)']),
     U('Parameters_write', WR, 'h_Parameters_write', ['Parameters__write/contract_Parameters__write'],
       ['C01', 'C03', 'C13', 'C14', 'C10'], replace=['Group__write/contract_abs_Group__write'], unwind=5, loops=True, timeout=900,
       pre_unwind={'vf_stream_write.0': 5, 'Parameters__write.0': 3},
